@@ -237,7 +237,24 @@ memTypes:
 			return parsed, typing, fmt.Errorf("%q: %v", text, err)
 		}
 	}
-	// 4. object store
+	// 4. object store; before that the predicate and the sort fields of the parsed query are put on a query parsed
+	// from the empty filter (an application narrowing "everything"), and the empty filter is evaluated afterwards
+	if q != nil {
+		if err := guarded("empty filter after another empty-filter query was given a predicate", func() {
+			if e0, err := ast.Parse(e.schema.People, ""); err == nil {
+				e0.SetPredicate(q.GetPredicate())
+				_ = e0.AdoptSortFields(q)
+				e0.SetSkip(1)
+			}
+			_, _, _ = e.ostore.QueryEntities("")
+			_ = e.dbs[2].DB.View(func(tx *bbolt.Tx) error {
+				_, _, _ = e.schema.People.QueryIds(tx, "")
+				return nil
+			})
+		}); err != nil {
+			return parsed, typing, fmt.Errorf("%q: %v", text, err)
+		}
+	}
 	if err := guarded("ObjectStore.QueryEntities", func() { _, _, _ = e.ostore.QueryEntities(text) }); err != nil {
 		return parsed, typing, fmt.Errorf("%q: %v", text, err)
 	}
@@ -326,7 +343,12 @@ func runC10(c c10Case) kit.Result {
 	} else {
 		res.Classes = append(res.Classes, "rejected-by-syntax")
 	}
-	res.NonTrivial = typing || c.Kind == "foreign"
+	res.NonTrivial = typing || c.Kind == "foreign" || c.Kind == "digit-in-identifier"
+	if c.Kind == "digit-in-identifier" && parsed {
+		// rejection oracle, independent of the parser: the grammar's identifiers consist of letters, '_' (and '-' after
+		// the first dot); a digit glued to one makes two tokens that no rule allows next to each other
+		res.Err = fmt.Errorf("a text in which a digit directly follows an identifier was accepted: %q", c.Text)
+	}
 	if c.Kind == "foreign" {
 		// rejection oracle, independent of the parser: Text contains, outside any string literal, a character that
 		// occurs in no lexer rule, so it is not a sentence of the grammar
@@ -354,7 +376,7 @@ var c10Symbols = []string{"id", "sa", "sb", "ia", "ib", "fa", "ba", "ta", "boss"
 var c10Datetimes = []string{"datetime(2020-01-01T00:00:00Z)", "datetime(2016-12-31T23:59:60Z)", "datetime(2020-01-01t00:00:00z)", "datetime( 2020-02-29T12:00:00.123456789+23:59 )",
 	"datetime(99999-01-01T00:00:00Z)", "datetime(0-01-01T00:00:00-00:00)", "datetime(2021-02-30T00:00:00Z)", "datetime(2020-01-01T00:00:00.5-05:00)"}
 var c10Numbers = []string{"0", "1", "-1", "3", "2.5", "-0.5", "1e3", "1E-3", "1e400", "-1e400", "99999999999999999999", "9223372036854775807", "-9223372036854775808", "9223372036854775808", "9223372036854775806", "4611686018427387904", "-9223372036854775807", "0.0000000000000000000001", "-0"}
-var c10Strings = []string{`""`, `"a"`, `"Bob"`, `"3"`, `"x y"`, `"\\"`, `"\""`, `"é"`, `"\n"`}
+var c10Strings = []string{`""`, `"a"`, `"Bob"`, `"3"`, `"x y"`, `"\\"`, `"\""`, `"é"`, `"\n"`, `"café \"du monde\""`, `"\\☃\t😀"`}
 
 func c10Literal(t *rapid.T, l string, kinds []string) string {
 	switch pickS(t, l+"_lk", kinds) {
@@ -607,6 +629,13 @@ func exhaustiveC10(maxLen int) func(yield func(c c10Case) bool) {
 				if !yield(c10Case{Kind: "many-symbols", Text: tail + " and " + b.String() + "false" + strings.Repeat(")", n)}) {
 					return
 				}
+			}
+		}
+		// a digit glued to an identifier (the grammar has no digits in identifiers): never a sentence
+		for _, text := range []string{`tags.k2 = "a"`, `tags.row2 = 7`, `sa2 = "a"`, `boss.sa1 != "x"`, `true sort by tags.k2`, `true sort by sa, ia2 desc`, `tags.u-1 = 7`,
+			`anyOf(roles2) = "a"`, `count(places9) > 1`, `isEmpty(from peers2 where true)`, `not (tags.zz0 = null)`, `sa = "a" and tags.n1 > 3`} {
+			if !yield(c10Case{Kind: "digit-in-identifier", Text: text}) {
+				return
 			}
 		}
 		// every sortable symbol on its own, in both directions, over rows where it is null and rows where it is not
